@@ -299,7 +299,7 @@ class BaseGroupBy(ABC):
         pd.Series
             Series with first n values from each group
         """
-        result = self._grouper.head(self._obj, n)
+        result = self._grouper.head(self._values_to_group, n)
         return (
             result
             if isinstance(result, pd.Series)
@@ -320,7 +320,7 @@ class BaseGroupBy(ABC):
         pd.Series
             Series with last n values from each group
         """
-        result = self._grouper.tail(self._obj, n)
+        result = self._grouper.tail(self._values_to_group, n)
         return (
             result
             if isinstance(result, pd.Series)
@@ -345,9 +345,9 @@ class BaseGroupBy(ABC):
             if hasattr(self, func):
                 return getattr(self, func)()
             else:
-                result = self._grouper.agg(self._obj, func)
+                result = self._grouper.agg(self._values_to_group, func)
         else:
-            result = self._grouper.apply(self._obj, func)
+            result = self._grouper.apply(self._values_to_group, func)
 
         return result
 
@@ -387,19 +387,21 @@ class BaseGroupBy(ABC):
         **func_kwargs
             Additional keyword arguments to pass to npfunc.
         """
-        return self._grouper.apply(self._obj, func, mask, *func_args, **func_kwargs)
+        return self._grouper.apply(
+            self._values_to_group, func, mask, *func_args, **func_kwargs
+        )
 
     @groupby_cumulative("Cumulative sum")
     def cumsum(self) -> pd.Series:
-        return self._grouper.cumsum(self._obj)
+        return self._grouper.cumsum(self._values_to_group)
 
     @groupby_cumulative("Cumulative maximum")
     def cummax(self) -> pd.Series:
-        return self._grouper.cummax(self._obj)
+        return self._grouper.cummax(self._values_to_group)
 
     @groupby_cumulative("Cumulative minimum")
     def cummin(self) -> pd.Series:
-        return self._grouper.cummin(self._obj)
+        return self._grouper.cummin(self._values_to_group)
 
     @groupby_cumulative(
         "Number each item in each group from 0 to the length of that group - 1"
@@ -465,7 +467,7 @@ class BaseGroupBy(ABC):
         dtype: float64
         """
         return self._grouper.ema(
-            self._obj,
+            self._values_to_group,
             alpha=alpha,
             halflife=halflife,
             times=times,
@@ -649,7 +651,7 @@ class BaseGroupByRolling:
         method = getattr(self._groupby_obj._grouper, f"rolling_{method_name}")
         return self._format_result(
             method(
-                self._groupby_obj._obj,
+                self._groupby_obj._values_to_group,
                 window=self._window,
                 min_periods=self._min_periods,
                 mask=mask,
